@@ -183,7 +183,11 @@ func cmdCheck(args []string) int {
 			toolingErr = true
 			continue
 		}
-		solveAll(res, timeout, true)
+		to := timeout
+		if h.Timeout > to {
+			to = h.Timeout
+		}
+		solveAll(res, to, true)
 		for i, o := range res.Obls {
 			v := res.Verdicts[i]
 			full := n + "/" + o.Name
